@@ -130,7 +130,7 @@ def C03(repo):
 
 
 def C19(repo):
-    return header(repo, 'C19')
+    return header(repo, 'C19') + generated(repo, 'C19')
 
 
 def C18(repo):
